@@ -1,0 +1,36 @@
+//go:build verif
+
+package resolve
+
+import "sync/atomic"
+
+// Verification hooks (build tag "verif" only): yield points inside the concurrency-critical
+// functions, so that a harness can park goroutines there and release them in a chosen order.
+// Without the tag verifYield is an empty function (verif_hooks_noverif.go).
+
+type verifYieldFunc func(point string, key any)
+
+var verifYieldHook atomic.Pointer[verifYieldFunc]
+
+// VerifSetYieldHook installs (or, with nil, removes) the yield hook.
+func VerifSetYieldHook(f func(point string, key any)) {
+	if f == nil {
+		verifYieldHook.Store(nil)
+		return
+	}
+	g := verifYieldFunc(f)
+	verifYieldHook.Store(&g)
+}
+
+func verifYield(point string, key any) {
+	if f := verifYieldHook.Load(); f != nil {
+		(*f)(point, key)
+	}
+}
+
+// VerifRegistrySizes reports the sizes of the subscription registries (must be empty at quiescence).
+func VerifRegistrySizes(r *Resolver) (triggers, subscriptionsByID, connections int) {
+	r.mu.Lock()
+	defer r.mu.Unlock()
+	return len(r.triggers), len(r.subscriptionsByID), len(r.subscriptionsByConnection)
+}
